@@ -427,6 +427,25 @@ theorem step_good (s : St) (op : Op) : Good s (step s op) := by
   | invalidate d => exact invalidate_good s d
   | reset => exact reset_good _ s
   | track e j => exact track_good s e j
+  | invalBump d =>
+    show Good s (invalBump s d)
+    unfold invalBump
+    exact Good.trans (epochCounter_good s d)
+      (Good.of_eps (s := (epochCounter s d).1) (s' := bumpEpoch (epochCounter s d).1 (epochCounter s d).2) rfl rfl)
+  | markDead e => exact markDead_good s e
+  | selfRemove e => exact selfRemove_good s e
+  | prepCreate k drain d =>
+    show Good s (countDial (prepCreate s k drain d))
+    unfold prepCreate
+    exact Good.trans (Good.trans (dropStale_good s k) (Good.trans (epochCounter_good _ d) (acquireTicket_good _ drain)))
+      (Good.of_eps rfl rfl)
+  | publish E =>
+    show Good s (if E.closed = false ∧ E.connCloses = 0 then publishEp s E else s)
+    split
+    · rename_i h
+      -- same endpoint table as `allocEp`, only the dial counter differs
+      exact Good.trans (allocEp_good s E h.1 h.2) (Good.of_eps (s := allocEp s E) (s' := publishEp s E) rfl rfl)
+    · exact Good.refl s
 
 theorem run_good : ∀ (ops : List Op) (s : St), Good s (run s ops) := by
   intro ops
